@@ -6,6 +6,7 @@ import (
 	"encoding/json"
 	"errors"
 	"fmt"
+	"reflect"
 	"sort"
 	"sync"
 	"testing"
@@ -109,6 +110,13 @@ type c13Ret struct {
 	Err  int   `json:"err"` // 0 nil, 1 ErrTooManyErrors, 2 anything else
 	// the caller's context was done (cancelled, or its deadline reached) when the call returned
 	Cancelled bool `json:"cancelled"`
+	// The caller keeps the slice CheckUpkeeps returned.  Vals is its content right after the call
+	// returned; at the end of the history (every later and concurrent call on the runner done) the
+	// same slice is read again: HeldSame, or its content then in Held.
+	HeldSame bool  `json:"heldSame"`
+	Held     []JCR `json:"held,omitempty"`
+
+	raw []ocr2keepers.CheckResult
 }
 type c13Impl struct {
 	Events  []c13Ev  `json:"events"`
@@ -311,7 +319,7 @@ func c13Run(t *testing.T, in c13Input) c13Impl {
 					cancel()
 				}
 				vals, err := r.CheckUpkeeps(ctx, ps...)
-				ret := c13Ret{C: c.C, Vals: toJCRs(vals), Cancelled: c13CtxDone(ctx)}
+				ret := c13Ret{C: c.C, Vals: toJCRs(vals), Cancelled: c13CtxDone(ctx), raw: vals}
 				cancel()
 				switch {
 				case err == nil:
@@ -337,6 +345,17 @@ func c13Run(t *testing.T, in c13Input) c13Impl {
 	case <-time.After(24 * time.Hour):
 		problem = "a CheckUpkeeps call did not return within 24 virtual hours"
 	}
+	// what the callers still hold, after everything else that happened on the runner
+	s.mu.Lock()
+	for i := range s.rets {
+		held := toJCRs(s.rets[i].raw)
+		if reflect.DeepEqual(held, s.rets[i].Vals) {
+			s.rets[i].HeldSame = true
+		} else {
+			s.rets[i].Held = held
+		}
+	}
+	s.mu.Unlock()
 	if err := r.Close(); err != nil {
 		problem += " Close: " + err.Error()
 	}
@@ -632,6 +651,59 @@ func c13GenInstant(r *Rng, em *Emitter) c13Input {
 	return in
 }
 
+// c13GenLong: one call stays in the pipeline (virtual seconds) while more than a thousand short
+// calls of other callers start and complete on the same runner; afterwards the long call's batches
+// are answered.  Every call must return exactly its own results, however many calls it overlapped.
+func c13GenLong(r *Rng, nShort int, em *Emitter) c13Input {
+	in := c13Input{Expire: int64(20 * time.Minute), Clean: int64(30 * time.Second), Workers: r.Range(2, 8)}
+	if r.Chance(30) {
+		in.Expire = 0
+	}
+	shortCallers := r.Range(1, 3)
+	w := c13NewWorld(r, 3*nShort+64)
+	next := 0
+	fresh := func() int { next++; return next - 1 }
+	cid := 0
+	mk := func(caller int, wait int64, n int, lat uint64, reuse bool) c13Call {
+		call := c13Call{C: cid, Caller: caller, Wait: wait}
+		for i := 0; i < n; i++ {
+			ui := fresh()
+			if reuse && next > 8 && r.Chance(10) {
+				ui = r.Intn(next) // asked before: usually served from the cache
+			}
+			p := w.payload(ui, r.Intn(len(w.blocks)))
+			a := c13Attr{CID: uint16(cid), Lat: lat, Misc: uint8(r.Intn(4))}
+			if r.Chance(3) {
+				a.Poison = true
+			}
+			p.CheckData = a.encode()
+			call.Payloads = append(call.Payloads, toC13Payload(p))
+		}
+		cid++
+		return call
+	}
+	// the long call(s): first of caller 0, started before every short call
+	nLong := r.Range(1, 25)
+	in.Workers = (nLong+9)/10 + r.Range(1, 4) // the long call's batches never occupy every worker
+	in.Calls = append(in.Calls, mk(0, 1000, nLong, uint64(r.Range(1, 5))*uint64(time.Second), false))
+	if r.Chance(50) { // afterwards the same caller asks again
+		in.Calls = append(in.Calls, mk(0, 1000, r.Range(1, 12), 1000, true))
+	}
+	per := nShort/shortCallers + 1
+	for k := 1; k <= shortCallers; k++ {
+		for j := 0; j < per; j++ {
+			wait := int64(r.Range(1, 50))
+			if j == 0 {
+				wait = int64(2000 + 100*k)
+			}
+			in.Calls = append(in.Calls, mk(k, wait, r.Range(1, 3), c13Lats[r.Intn(3)], true))
+		}
+	}
+	em.Hit("long-call-history")
+	em.Hit(fmt.Sprintf("long-call-short-calls=%d", nShort/100*100))
+	return in
+}
+
 // ---------------------------------------------------------------- hand-written edge cases
 
 func c13Edge() []c13Input {
@@ -749,10 +821,20 @@ func TestC13(t *testing.T) {
 	defer em.Close()
 	run := func(src string, in c13Input) {
 		var impl c13Impl
-		synctest.Test(t, func(t *testing.T) { impl = c13Run(t, in) })
+		func() {
+			// a call that never returns leaves goroutines blocked for ever: synctest reports that
+			// with a panic when the bubble ends; the observations made so far are what counts (the
+			// missing return value is judged by the driver)
+			defer func() {
+				if p := recover(); p != nil {
+					impl.Problem += fmt.Sprintf(" bubble: %v", p)
+				}
+			}()
+			synctest.Test(t, func(t *testing.T) { impl = c13Run(t, in) })
+		}()
 		if impl.Problem != "" {
 			em.Hit("problem")
-			t.Errorf("%s: %s", src, impl.Problem)
+			t.Logf("%s: %s", src, impl.Problem)
 		}
 		em.Emit(src, in, impl)
 	}
@@ -775,6 +857,10 @@ func TestC13(t *testing.T) {
 	nbig := tierN(6, 60)
 	for i := 0; i < n; i++ {
 		run("gen", c13Gen(r, i < nbig, em))
+	}
+	rl := NewRng(seed() ^ 0x10c13)
+	for i, nl := 0, tierN(3, 40); i < nl; i++ {
+		run("gen-long", c13GenLong(rl, rl.Range(1150, 1400), em))
 	}
 	ri := NewRng(seed() ^ 0x13c13)
 	for i, ni := 0, tierN(120, 2000); i < ni; i++ {
